@@ -518,7 +518,8 @@ def case_key(case):
         if case.get("prelude"):
             k += " evaluated-after=" + ";".join(_params_digest(c["model"]) for c in case["prelude"])
         return k
-    return f"sorter {case['name']} n={len(case['x'])} optimal_start={case['optimal']}"
+    return (f"sorter {case['name']} n={len(case['x'])} optimal_start={case['optimal']}"
+            + ("" if case.get("container", "ndarray") == "ndarray" else f" input={case['container']}"))
 
 
 def _params_digest(dims):
@@ -610,17 +611,30 @@ def observe_sorter(vc, case):
     y = np.array(case["y"], dtype=float)
     x0, y0 = x.copy(), y.copy()
     rec = dict(kind="sort", exc="", inp=[], out=[], samelen=True, mutated=False)
+    cont = case.get("container", "ndarray")       # x, y are documented as array_like
+    if cont == "list":
+        xa, ya = x.tolist(), y.tolist()
+    elif cont == "tuple":
+        xa, ya = tuple(x.tolist()), tuple(y.tolist())
+    elif cont == "series":   # positional meaning, labels shifted / permuted
+        import pandas as pd
+        n = len(x)
+        xa = pd.Series(x.copy(), index=np.arange(n)[::-1] + 5)
+        ya = pd.Series(y.copy(), index=np.arange(n) * 3 + 100)
+    else:
+        xa, ya = x, y
     try:
         with warnings.catch_warnings():
             warnings.simplefilter("ignore")
             xx, yy = vc.utils.sort_points_to_form_continuous_line(
-                x, y, search_for_optimal_start=bool(case["optimal"]))
+                xa, ya, search_for_optimal_start=bool(case["optimal"]))
     except Exception as e:  # noqa
         rec["exc"] = f"{type(e).__name__}: {e}"[:200]
         return rec
     xx, yy = np.asarray(xx, dtype=float), np.asarray(yy, dtype=float)
     rec["samelen"] = bool(xx.shape == yy.shape and xx.ndim == 1)
-    rec["mutated"] = bool(not (np.array_equal(x, x0) and np.array_equal(y, y0)))
+    rec["mutated"] = bool(not (np.array_equal(np.asarray(xa, dtype=float), x0)
+                               and np.array_equal(np.asarray(ya, dtype=float), y0)))
 
     def proj(a, b):
         pts = []
@@ -658,9 +672,18 @@ def record_c02(rid, case, obs):
                limq=l2(q18(cap["limit"])), Ph=ph, Pl=pl, Fh=fh, Fl=fl,
                R=[] if "mask" not in cap else [int(v) for v in cap["mask"].ravel().tolist()],
                lastq=l2(q18(cap["last"])) if "last" in cap else [0, 0], fmq=l2(fmq))
+    rec["cmp"] = []
     if not obs["warned"] and "mask" in cap:
         if not set(rec["R"]) <= {0, 1}:
             rec["exc"] = "mask is not 0/1"
+        # exact float order of every cell's cell-averaged density against the reported fm
+        c = obs["contour"]
+        with warnings.catch_warnings():
+            warnings.simplefilter("ignore")
+            f = np.asarray(c.cell_averaged_joint_pdf(c.cell_center_coordinates), dtype=float)
+        fm = float(c.fm)
+        if f.shape == cap["P"].shape:
+            rec["cmp"] = [(1 if v > fm else (0 if v == fm else -1)) for v in f.ravel().tolist()]
     return rec
 
 
@@ -759,4 +782,75 @@ def band_cases(rng, n):
                    grid="bands", alpha="big")
         out.append(dict(kind="hdc", model=dims, alpha=["0.3", "0.3", "0.2", "0.25"][k % 4], limits=limits,
                         deltas=deltas, cfg=cfg, np_seed=None))
+    return out
+
+
+def hole_cases(rng, n):
+    """Single connected regions WITH A HOLE: direction variables (von Mises, mean direction about
+    north) on grids tiling [0, 2 pi) - the density is high along the grid borders and lowest in
+    the middle - and U-shaped beta variables.  2-D (a frame) and 3-D (a shell around a cavity).
+    The boundary of such a region has an outer and an inner piece; it is ONE region."""
+    out = []
+    for k in range(n):
+        three = k % 3 == 2
+        ndim = 3 if three else 2
+        ncell = int(rng.integers(14, 22)) if three else int(rng.integers(28, 80))
+        if k % 4 == 3:   # U-shaped beta marginals on [0, 10]
+            dims = [dict(family="Beta", cond=None, params=dict(a=_u(rng, 0.3, 0.6), b=_u(rng, 0.3, 0.6), loc=0.0,
+                                                            scale=10.0)) for _ in range(ndim)]
+            d = 10.0 / ncell
+            limits = [[d / 2, 10.0 - d] for _ in range(ndim)]
+        else:
+            dims = [dict(family="VonMises", cond=None, params=dict(kappa=_u(rng, 0.7, 1.8), mu=_u(rng, -0.12, 0.12)))
+                    for _ in range(ndim)]
+            d = 2 * math.pi / ncell
+            limits = [[d / 2, 2 * math.pi - d] for _ in range(ndim)]
+        cfg = dict(dim=ndim, cond1="none", cond2="none", deltas="scalar", limits="explicit", aniso="1",
+                   grid="hole", alpha="mid")
+        out.append(dict(kind="hdc", model=dims, alpha=["0.02", "0.05", "0.1", "0.03"][k % 4], limits=limits,
+                        deltas=d, cfg=cfg, np_seed=None))
+    return out
+
+
+def negative_default_limit_cases():
+    """all defaults (limits=None, deltas=None) for models with a NEGATIVE upper default limit
+    marginal_icdf(1 - 0.2**n * alpha): the default grid (0, q), q < 0, cannot hold 1 - alpha -
+    the documented RuntimeWarning is expected (not an exception)."""
+    cfg = dict(dim=2, cond1="none", cond2="none", deltas="default", limits="default", aniso="1", grid="negdefault",
+               alpha="big")
+    a = dict(kind="hdc", model=[dict(family="Weibull", cond=None, params=dict(alpha=2.0, beta=1.5, gamma=0.0)),
+                                dict(family="Normal", cond=None, params=dict(mu=-3.0, sigma=0.5))],
+             alpha="0.1", limits=None, deltas=None, cfg=cfg, np_seed=11)
+    b = dict(kind="hdc", model=[dict(family="Weibull", cond=None, params=dict(alpha=6.7, beta=1.8, gamma=0.0)),
+                                dict(family="VonMises", cond=0, fixed=dict(mu=5.1), dep=dict(kappa=["pow", 15.0, 0.0, 1.0]))],
+             alpha="0.1", limits=None, deltas=None, cfg=dict(cfg, cond1="zero"), np_seed=12)
+    return [a, b]
+
+
+def decimal_delta_cases(vc, rng, cfgs, n):
+    """cell sizes that are short decimals, not powers of two (0.1, 0.3, 0.07, ...): products and
+    quotients with them are inexact, which is what an fm recovered by dividing back trips over"""
+    pool = [c for c in cfgs if c["grid"] == "fit" and c["deltas"] == "list" and c["limits"] == "explicit"
+            and c["aniso"] == "1"]
+    pool = [pool[i] for i in rng.permutation(len(pool))]
+    out = []
+    for cfg in pool[:n]:
+        c = make_contour_case(vc, rng, cfg, (25, 90), (8, 20))
+        c["deltas"] = [float(f"{d:.1g}") for d in c["deltas"]]
+        c["cfg"] = dict(cfg, grid="decimal")
+        out.append(c)
+    # the classical sea state model on deltas 0.1 / 0.1 and a tied i.i.d. model (ties at the threshold
+    # are split by index in the code; no clause here depends on how)
+    dnv = [dict(family="Weibull", cond=None, params=dict(alpha=2.776, beta=1.471, gamma=0.8888)),
+           dict(family="LogNormal", cond=0, fixed={}, dep=dict(mu=["pow", 0.1, 1.489, 0.1901],
+                                                               sigma=["exp", 0.04, 0.1748, 0.2243]))]
+    fix = dict(dim=2, cond1="zero", cond2="none", deltas="list", limits="explicit", aniso="1", grid="decimal",
+               alpha="big")
+    for al in ("0.1", "0.2", "0.001"):
+        out.append(dict(kind="hdc", model=dnv, alpha=al, limits=[[0.0, 20.0], [0.0, 20.0]], deltas=[0.1, 0.1],
+                        cfg=fix, np_seed=None))
+    iid = [dict(family="Weibull", cond=None, params=dict(alpha=2.0, beta=1.5, gamma=0.0)) for _ in range(2)]
+    for al in ("0.1", "0.05"):
+        out.append(dict(kind="hdc", model=iid, alpha=al, limits=[[0.0, 16.0], [0.0, 16.0]], deltas=0.125,
+                        cfg=dict(fix, cond1="none", grid="ties"), np_seed=None))
     return out
